@@ -620,6 +620,15 @@ const (
 	SeekDontCheck = 1 << 30
 )
 
+// currentOffset returns the offset of the connection, it is used by batches
+// which need to read it while other goroutines may be seeking.
+func (c *Conn) currentOffset() int64 {
+	c.mutex.Lock()
+	offset := c.offset
+	c.mutex.Unlock()
+	return offset
+}
+
 // Seek sets the offset for the next read or write operation according to whence, which
 // should be one of SeekStart, SeekAbsolute, SeekEnd, or SeekCurrent.
 // When seeking relative to the end, the offset is subtracted from the current offset.
